@@ -19,10 +19,14 @@ const (
 	OpMatchAll
 	OpMatch
 	OpCosmetic
+	// OpRescan is not a query: the storage is scanned to the end once more
+	// and a second DNS engine is built over it and dropped (what a reload
+	// does while the old engine is still in service).
+	OpRescan
 	NumOpKinds
 )
 
-var opKindNames = []string{"dns", "web", "matchall", "match", "cosmetic"}
+var opKindNames = []string{"dns", "web", "matchall", "match", "cosmetic", "rescan"}
 
 // Op is one query.
 type Op struct {
@@ -44,13 +48,22 @@ type Op struct {
 
 	// OpCosmetic (Host is reused)
 	CosOpt rules.CosmeticOption
+
+	// Short makes an OpDNS without client fields go through the
+	// DNSEngine.Match(hostname) shortcut.
+	Short bool
 }
 
 // Key identifies the request (memoisation of the reference answer).
 func (o *Op) Key() string {
 	switch o.Kind {
 	case OpDNS:
+		if o.Short {
+			return fmt.Sprintf("dnsmatch|%s", o.Host)
+		}
 		return fmt.Sprintf("dns|%s|%d|%s|%s|%d", o.Host, o.DNSType, o.Client, o.IP, o.Tags)
+	case OpRescan:
+		return "rescan"
 	case OpCosmetic:
 		return fmt.Sprintf("cos|%s|%d", o.Host, o.CosOpt)
 	default:
@@ -354,7 +367,16 @@ func Exec(e *Engines, o *Op) *Result {
 	r := &Result{Kind: o.Kind}
 	switch o.Kind {
 	case OpDNS:
-		r.DNS, r.Matched = e.DNS.MatchRequest(o.DNSRequest())
+		if o.Short {
+			r.DNS, r.Matched = e.DNS.Match(o.Host)
+		} else {
+			r.DNS, r.Matched = e.DNS.MatchRequest(o.DNSRequest())
+		}
+	case OpRescan:
+		sc := e.Storage.NewRuleStorageScanner()
+		for sc.Scan() {
+		}
+		_ = urlfilter.NewDNSEngine(e.Storage)
 	case OpWeb:
 		r.Web = e.Eng.MatchRequest(o.Request())
 	case OpMatchAll:
@@ -440,6 +462,8 @@ func (r *Result) Canon() string {
 	case OpMatch:
 		fmt.Fprintf(&b, "match ok=%t rule=", r.Matched)
 		nrStr(&b, r.One)
+	case OpRescan:
+		b.WriteString("rescan")
 	case OpCosmetic:
 		b.WriteString("cos")
 		strList(&b, "g", r.Cos.ElementHiding.Generic)
